@@ -219,13 +219,20 @@ class Unit:
 # oracle (implementation observations only)
 # ------------------------------------------------------------------------------------------------
 
-def judge(case, recs):
-    """-> list of (kind, message). kinds: returns, stale, converge, quiet, redo, kill."""
+def judge(case, recs, pre_records=()):
+    """-> list of (kind, message). kinds: returns, stale, converge, quiet, redo, never-ran, kill."""
     bad = []
     builds = [r for r in recs if r["step"][0] == "build"]
     prev = None
+    # tasks whose body ever ran to its end in this project directory (pre-crash history, killed builds, recovery builds)
+    ever_done = set()
+    for r in pre_records:
+        if r["step"][0] == "build":
+            ever_done |= {int(e[1]) for e in r["obs"].get("log", []) if e[0] == "E"}
     for r in builds:
         spec, obs, cfg = r["spec"], r["obs"], r["cfg"]
+        done_before = set(ever_done)
+        ever_done |= {int(e[1]) for e in obs.get("log", []) if e[0] == "E"}
         if r["kill"] and not r["died"] and r["kill"].get("k", 0) <= 0:
             bad.append(("kill", f"kill descriptor {r['kill']} invalid"))
         if r["died"]:
@@ -239,6 +246,9 @@ def judge(case, recs):
             continue
         outs = engine.outcomes(obs)
         ex = engine.executed(obs)
+        for t, o in outs.items():
+            if o == "SKIP_UNCHANGED" and t not in done_before:
+                bad.append(("never-ran", f"task {t} is reported SKIP_UNCHANGED although its body never ran to completion in this project"))
         if not cfg.get("dry"):
             prods = {p for t in spec["tasks"] for p in t["prods"]}
             inputs = {n: v for n, v in r["post"].items() if n not in prods}
